@@ -630,3 +630,461 @@ Qed.
 
 Corollary einval_identity_sound before after : einval_identity before after = [] -> before = after.
 Proof. unfold einval_identity. intros H. apply chk_nil in H. apply dump_eqb_eq. exact H. Qed.
+
+(* ---------------- whole tree: no object is duplicated (the survivor map is injective) ---------------- *)
+
+Definition cnt (k : N) (l : list obj) : nat := count_occ N.eq_dec (map oid l) k.
+
+Lemma cnt_app k a b : cnt k (a ++ b) = (cnt k a + cnt k b)%nat.
+Proof. unfold cnt. rewrite map_app. apply count_occ_app. Qed.
+Lemma cnt_nil k : cnt k [] = O.
+Proof. reflexivity. Qed.
+Lemma cnt_cons k c l : cnt k (c :: l) = ((if N.eq_dec (oid c) k then 1 else 0) + cnt k l)%nat.
+Proof. unfold cnt. cbn [map count_occ]. destruct (N.eq_dec (oid c) k); reflexivity. Qed.
+Lemma cnt_flats_cons k c l : cnt k (flats (c :: l)) = (cnt k (flatten c) + cnt k (flats l))%nat.
+Proof. unfold flats. cbn [flat_map]. apply cnt_app. Qed.
+Lemma cnt_flats_app k a b : cnt k (flats (a ++ b)) = (cnt k (flats a) + cnt k (flats b))%nat.
+Proof. unfold flats. rewrite flat_map_app. apply cnt_app. Qed.
+Lemma cnt_flats_nil k : cnt k (flats []) = O.
+Proof. reflexivity. Qed.
+
+Lemma cnt_flats_insert k c l : cnt k (flats (insert_child c l)) = (cnt k (flatten c) + cnt k (flats l))%nat.
+Proof.
+  induction l as [|e tl IH]; cbn [insert_child].
+  - rewrite cnt_flats_cons. reflexivity.
+  - destruct (obj_first_gt c e).
+    + rewrite !cnt_flats_cons, IH. lia.
+    + rewrite !cnt_flats_cons. reflexivity.
+Qed.
+
+Lemma cnt_flats_reorder k l : cnt k (flats (reorder_children l)) = cnt k (flats l).
+Proof.
+  unfold reorder_children.
+  assert (G : forall l acc, cnt k (flats (fold_left (fun acc c => insert_child c acc) l acc)) = (cnt k (flats acc) + cnt k (flats l))%nat).
+  { clear l. induction l as [|c tl IH]; intros acc; cbn [fold_left].
+    - rewrite cnt_flats_nil. lia.
+    - rewrite IH, cnt_flats_insert, cnt_flats_cons. lia. }
+  rewrite G, cnt_flats_nil. reflexivity.
+Qed.
+
+Definition sub_cnt (P : rparams) (o : obj) : Prop :=
+  forall k, (cnt k (result_objs (robj P o)) <= cnt k (flatten o))%nat.
+
+Lemma rlist_cnt P l : Forall (sub_cnt P) l ->
+  forall k, (cnt k (flats (fst (fst (rlist P l)))) + cnt k (flats (snd (fst (rlist P l)))) + cnt k (flats (snd (rlist P l)))
+             <= cnt k (flats l))%nat.
+Proof.
+  induction 1 as [|c tl Hc Htl IH]; intros k.
+  - cbn. lia.
+  - cbn [rlist]. cbn zeta. cbn [fst snd]. specialize (Hc k). specialize (IH k). unfold result_objs in Hc.
+    rewrite !cnt_app in Hc. rewrite !cnt_flats_app, cnt_flats_cons.
+    destruct (fst (fst (robj P c))) as [c'|]; rewrite ?cnt_flats_cons, ?cnt_nil in *; lia.
+Qed.
+
+Lemma kept_children_cnt P d l : Forall (sub_cnt P) l ->
+  forall k, (cnt k (flats (fst (fst (kept_children P d l)))) + cnt k (flats (snd (fst (kept_children P d l)))) +
+             cnt k (flats (snd (kept_children P d l))) <= cnt k (flats l))%nat.
+Proof.
+  intros Hl k. unfold kept_children. destruct (snd (clear_sets P d)).
+  - apply rlist_cnt. exact Hl.
+  - cbn [fst snd]. rewrite cnt_flats_nil. lia.
+Qed.
+
+Theorem robj_sub_cnt P o : sub_cnt P o.
+Proof.
+  induction o as [d n m i x Hn Hm Hi Hx] using obj_ind2.
+  unfold sub_cnt. intros k. rewrite robj_eq. unfold robj_body. cbn zeta.
+  pose proof (kept_children_cnt P d n Hn k) as Kn. pose proof (kept_children_cnt P d m Hm k) as Km.
+  set (kn := kept_children P d n) in *. set (km := kept_children P d m) in *.
+  set (n1 := if snd (clear_sets P d) && (negb (rp_bynode P) || rp_rm P) then reorder_children (fst (fst kn)) else fst (fst kn)).
+  assert (Hn1 : cnt k (flats n1) = cnt k (flats (fst (fst kn)))).
+  { unfold n1. destruct (snd (clear_sets P d) && _); [apply cnt_flats_reorder|reflexivity]. }
+  assert (Hkept : (cnt k (flatten (Obj (fst (clear_sets P d)) n1 (fst (fst km)) (i ++ snd (fst kn) ++ snd (fst km)) (x ++ snd kn ++ snd km)))
+                   <= cnt k (flatten (Obj d n m i x)))%nat).
+  { rewrite !flatten_eq, !cnt_cons, !cnt_app, !cnt_flats_app, Hn1.
+    change (oid (Obj (fst (clear_sets P d)) n1 (fst (fst km)) (i ++ snd (fst kn) ++ snd (fst km)) (x ++ snd kn ++ snd km))) with (o_id d).
+    change (oid (Obj d n m i x)) with (o_id d). lia. }
+  assert (Hup : (cnt k (flats (i ++ snd (fst kn) ++ snd (fst km))) + cnt k (flats (x ++ snd kn ++ snd km))
+                 <= cnt k (flatten (Obj d n m i x)))%nat).
+  { rewrite flatten_eq, cnt_cons, !cnt_app, !cnt_flats_app. lia. }
+  unfold result_objs.
+  destruct n1 as [|a l]; destruct (fst (fst km)) as [|b l'];
+  try destruct (removal_test P (fst (clear_sets P d)));
+  cbn [fst snd]; rewrite ?cnt_app, ?cnt_flats_nil, ?cnt_nil, ?Nat.add_0_r; try exact Hkept.
+  destruct (rp_io P), (rp_misc P); rewrite ?cnt_flats_nil; lia.
+Qed.
+
+Theorem robj_nodup P o : NoDup (map oid (flatten o)) -> NoDup (map oid (result_objs (robj P o))).
+Proof.
+  intros H. apply (NoDup_count_occ N.eq_dec). intros k.
+  rewrite (NoDup_count_occ N.eq_dec) in H. specialize (H k).
+  pose proof (robj_sub_cnt P o k) as G. unfold cnt in G. lia.
+Qed.
+
+Lemma NoDup_app_l {A} (a b : list A) : NoDup (a ++ b) -> NoDup a.
+Proof.
+  induction a as [|x a IH]; cbn; intros H; [constructor|].
+  inversion H as [|? ? Hn Hd]; subst. constructor; [|auto].
+  intros Hi. apply Hn. apply in_or_app. left. exact Hi.
+Qed.
+
+Corollary prune_nodup t S flags t' :
+  restrict_prune t S flags = Done t' ->
+  NoDup (map oid (flatten (tp_root t))) -> NoDup (map oid (flatten (tp_root t'))).
+Proof.
+  intros H Hnd. apply restrict_prune_done in H as (P & io & mx & _ & Hr & _ & _).
+  pose proof (robj_nodup P _ Hnd) as G. unfold result_objs in G. rewrite Hr in G. cbn [fst snd] in G.
+  rewrite map_app in G. apply NoDup_app_l in G. exact G.
+Qed.
+
+(* ---------------- whole tree: the removal rule ---------------- *)
+
+(* The rule as a recursive predicate on the OLD tree: an object reached by the recursion
+   vanishes iff (its sets are changed by this restriction and all its normal and memory
+   children vanish, or it has no such child at all), its cleared cpuset (nodeset) is
+   empty, and it is not a NUMA node (PU) unless REMOVE_CPULESS (REMOVE_MEMLESS). *)
+Fixpoint vanishes (P : rparams) (o : obj) : bool :=
+  match o with
+  | Obj d n m i x =>
+      (if snd (clear_sets P d)
+       then (fix go (l : list obj) : bool := match l with [] => true | c :: tl => vanishes P c && go tl end) n &&
+            (fix go (l : list obj) : bool := match l with [] => true | c :: tl => vanishes P c && go tl end) m
+       else match n, m with [], [] => true | _, _ => false end) &&
+      removal_test P (fst (clear_sets P d))
+  end.
+
+Lemma vanishes_eq P d n m i x :
+  vanishes P (Obj d n m i x) =
+  (if snd (clear_sets P d) then forallb (vanishes P) n && forallb (vanishes P) m
+   else match n, m with [], [] => true | _, _ => false end) && removal_test P (fst (clear_sets P d)).
+Proof. reflexivity. Qed.
+
+Lemma reorder_nil l : reorder_children l = [] <-> l = [].
+Proof.
+  split; [|intros ->; reflexivity].
+  destruct l as [|c tl]; [reflexivity|]. intros H.
+  assert (In c (reorder_children (c :: tl))) by (apply in_reorder; left; reflexivity).
+  rewrite H in H0. contradiction.
+Qed.
+
+Definition vanishes_ok (P : rparams) (o : obj) : Prop := fst (fst (robj P o)) = None <-> vanishes P o = true.
+
+Lemma rlist_kept_nil P l : Forall (vanishes_ok P) l ->
+  (fst (fst (rlist P l)) = [] <-> forallb (vanishes P) l = true).
+Proof.
+  induction 1 as [|c tl Hc Htl IH]; [cbn; tauto|].
+  cbn [rlist forallb]. cbn zeta. cbn [fst]. unfold vanishes_ok in Hc. rewrite andb_true_iff, <- IH, <- Hc.
+  destruct (fst (fst (robj P c))); split; intros H; try discriminate; try tauto.
+  - destruct H as [H _]. discriminate.
+Qed.
+
+Theorem robj_vanishes P o : vanishes_ok P o.
+Proof.
+  induction o as [d n m i x Hn Hm Hi Hx] using obj_ind2.
+  unfold vanishes_ok. rewrite robj_removed_iff, vanishes_eq. cbn zeta. unfold kept_children.
+  pose proof (rlist_kept_nil P n Hn) as Kn. pose proof (rlist_kept_nil P m Hm) as Km.
+  destruct (snd (clear_sets P d)); cbn [andb fst].
+  - rewrite !andb_true_iff, <- Kn, <- Km.
+    destruct (negb (rp_bynode P) || rp_rm P); [rewrite reorder_nil|]; tauto.
+  - rewrite andb_true_iff. destruct n, m; intuition congruence.
+Qed.
+
+(* normal and memory descendants, depth first *)
+Fixpoint nmflatten (o : obj) : list obj :=
+  match o with
+  | Obj _ n m _ _ =>
+      o :: (fix go (l : list obj) : list obj := match l with [] => [] | c :: tl => nmflatten c ++ go tl end) n
+        ++ (fix go (l : list obj) : list obj := match l with [] => [] | c :: tl => nmflatten c ++ go tl end) m
+  end.
+Definition nmflats (l : list obj) : list obj := flat_map nmflatten l.
+Lemma nmflatten_eq d n m i x : nmflatten (Obj d n m i x) = Obj d n m i x :: nmflats n ++ nmflats m.
+Proof. reflexivity. Qed.
+
+(* ids of the normal and memory objects that are still there afterwards, stated on the OLD tree:
+   nothing of a vanishing object; otherwise the object itself and, if its sets are changed by this
+   restriction, what is left of each child, else its whole (untouched) subtree *)
+Fixpoint alive (P : rparams) (o : obj) : list N :=
+  match o with
+  | Obj d n m i x =>
+      if vanishes P o then []
+      else o_id d ::
+           (if snd (clear_sets P d)
+            then (fix go (l : list obj) : list N := match l with [] => [] | c :: tl => alive P c ++ go tl end) n ++
+                 (fix go (l : list obj) : list N := match l with [] => [] | c :: tl => alive P c ++ go tl end) m
+            else map oid (nmflats n) ++ map oid (nmflats m))
+  end.
+Lemma alive_eq P d n m i x :
+  alive P (Obj d n m i x) =
+  if vanishes P (Obj d n m i x) then []
+  else o_id d :: (if snd (clear_sets P d) then flat_map (alive P) n ++ flat_map (alive P) m
+                  else map oid (nmflats n) ++ map oid (nmflats m)).
+Proof. reflexivity. Qed.
+
+Lemma in_nmflats q l : In q (nmflats l) <-> exists c, In c l /\ In q (nmflatten c).
+Proof. unfold nmflats. rewrite in_flat_map. tauto. Qed.
+
+Lemma in_ids_nmflats k l : In k (map oid (nmflats l)) <-> exists c, In c l /\ In k (map oid (nmflatten c)).
+Proof.
+  rewrite in_map_iff. split.
+  - intros [q [Hk Hq]]. apply in_nmflats in Hq as [c [Hc Hq]]. exists c. split; [assumption|]. apply in_map_iff. eauto.
+  - intros [c [Hc Hk]]. apply in_map_iff in Hk as [q [Hk Hq]]. exists q. split; [assumption|]. apply in_nmflats. eauto.
+Qed.
+
+Lemma in_ids_nmflats_reorder k l : In k (map oid (nmflats (reorder_children l))) <-> In k (map oid (nmflats l)).
+Proof. rewrite !in_ids_nmflats. split; intros [c [H1 H2]]; exists c; split; auto; apply in_reorder; assumption. Qed.
+
+Definition alive_ok (P : rparams) (o : obj) : Prop :=
+  match fst (fst (robj P o)) with
+  | Some o' => forall k, In k (map oid (nmflatten o')) <-> In k (alive P o)
+  | None => alive P o = []
+  end.
+
+Lemma rlist_alive P l : Forall (alive_ok P) l ->
+  forall k, In k (map oid (nmflats (fst (fst (rlist P l))))) <-> In k (flat_map (alive P) l).
+Proof.
+  induction 1 as [|c tl Hc Htl IH]; intros k; [cbn; tauto|].
+  cbn [rlist flat_map]. cbn zeta. cbn [fst]. unfold alive_ok in Hc. rewrite in_app_iff, <- IH.
+  destruct (fst (fst (robj P c))) as [c'|].
+  - unfold nmflats. cbn [flat_map]. rewrite map_app, in_app_iff, Hc. tauto.
+  - rewrite Hc. cbn. tauto.
+Qed.
+
+Lemma robj_body_kept P d n m i x o' io mx :
+  robj_body P d n m i x = (Some o', io, mx) ->
+  o' = Obj (fst (clear_sets P d))
+           (if snd (clear_sets P d) && (negb (rp_bynode P) || rp_rm P)
+            then reorder_children (fst (fst (kept_children P d n))) else fst (fst (kept_children P d n)))
+           (fst (fst (kept_children P d m)))
+           (i ++ snd (fst (kept_children P d n)) ++ snd (fst (kept_children P d m)))
+           (x ++ snd (kept_children P d n) ++ snd (kept_children P d m)).
+Proof.
+  unfold robj_body. cbn zeta.
+  destruct (if snd (clear_sets P d) && (negb (rp_bynode P) || rp_rm P) then _ else _) eqn:E1;
+  destruct (fst (fst (kept_children P d m))) eqn:E2; try destruct (removal_test P _);
+  intros H; inversion H; reflexivity.
+Qed.
+
+Theorem robj_alive P o : alive_ok P o.
+Proof.
+  induction o as [d n m i x Hn Hm Hi Hx] using obj_ind2.
+  unfold alive_ok.
+  destruct (fst (fst (robj P (Obj d n m i x)))) as [o'|] eqn:E.
+  - (* kept *)
+    assert (Hv : vanishes P (Obj d n m i x) = false).
+    { destruct (vanishes P (Obj d n m i x)) eqn:V; [|reflexivity]. apply (robj_vanishes P) in V. congruence. }
+    rewrite alive_eq, Hv.
+    destruct (robj P (Obj d n m i x)) as [[r io] mx] eqn:R. cbn [fst] in E. subst r.
+    rewrite robj_eq in R. apply robj_body_kept in R. subst o'.
+    pose proof (rlist_alive P n Hn) as Kn. pose proof (rlist_alive P m Hm) as Km.
+    intros k. rewrite nmflatten_eq. cbn [map In]. rewrite map_app, in_app_iff.
+    match goal with |- context [oid (Obj ?a ?b ?c ?e ?f)] => change (oid (Obj a b c e f)) with (o_id d) end.
+    unfold kept_children. destruct (snd (clear_sets P d)); cbn [andb fst snd].
+    + destruct (negb (rp_bynode P) || rp_rm P); rewrite ?in_ids_nmflats_reorder, Kn, Km, in_app_iff; tauto.
+    + rewrite in_app_iff. tauto.
+  - rewrite alive_eq. apply (robj_vanishes P) in E. rewrite E. reflexivity.
+Qed.
+
+Corollary prune_alive t S flags t' :
+  restrict_prune t S flags = Done t' ->
+  exists P, restrict_params t S flags = Some P /\
+            forall k, In k (map oid (nmflatten (tp_root t'))) <-> In k (alive P (tp_root t)).
+Proof.
+  intros H. apply restrict_prune_done in H as (P & io & mx & HP & Hr & _ & _).
+  exists P. split; [assumption|]. pose proof (robj_alive P (tp_root t)) as G. unfold alive_ok in G.
+  rewrite Hr in G. exact G.
+Qed.
+
+(* ---------------- whole tree: the PUs after a restrict by cpuset ---------------- *)
+
+(* well-formedness facts used (C01 clauses): a PU is a leaf with cpuset = complete cpuset = {os_index};
+   the complete cpuset of a normal child is inside its parent's *)
+Definition local_ok (q : obj) : Prop :=
+  (otype q = HWLOC_OBJ_PU ->
+     o_cs (odata q) = Some (bs_single (o_os (odata q))) /\ o_ccs (odata q) = Some (bs_single (o_os (odata q))) /\
+     onch q = [] /\ omch q = []) /\
+  (forall c, In c (onch q) -> bs_subset (oset (o_ccs (odata c))) (oset (o_ccs (odata q))) = true).
+Definition tree_ok (o : obj) : Prop := forall q, In q (nflatten o) -> local_ok q.
+
+Lemma in_nflattens q l : In q (nflattens l) <-> exists c, In c l /\ In q (nflatten c).
+Proof. unfold nflattens. rewrite in_flat_map. tauto. Qed.
+
+Lemma tree_ok_child o c : tree_ok o -> In c (onch o) -> tree_ok c.
+Proof.
+  intros H Hc q Hq. apply H. rewrite nflatten_eq. right. apply in_nflattens. exists c. auto.
+Qed.
+Lemma tree_ok_self o : tree_ok o -> local_ok o.
+Proof. intros H. apply H. rewrite nflatten_eq. left. reflexivity. Qed.
+
+Lemma rlist_kept_in P l c' :
+  In c' (fst (fst (rlist P l))) <-> exists c, In c l /\ fst (fst (robj P c)) = Some c'.
+Proof.
+  induction l as [|c tl IH]; cbn [rlist]; cbn zeta; cbn [fst].
+  - cbn. split; [contradiction|intros [c [[] _]]].
+  - destruct (fst (fst (robj P c))) as [k|] eqn:E.
+    + cbn [In]. rewrite IH. split.
+      * intros [->|[c0 [H1 H2]]]; [exists c; split; [left; reflexivity|assumption]|exists c0; split; [right|]; assumption].
+      * intros [c0 [[->|H1] H2]]; [left; congruence|right; exists c0; auto].
+    + rewrite IH. split.
+      * intros [c0 [H1 H2]]. exists c0. split; [right|]; assumption.
+      * intros [c0 [[->|H1] H2]]; [congruence|exists c0; auto].
+Qed.
+
+Lemma mem_single_self k : mem k (bs_single k) = true.
+Proof. rewrite mem_single. apply N.eqb_refl. Qed.
+
+Lemma disjoint_sub a b dc : bs_subset a b = true -> bs_intersects b dc = false -> bs_intersects a dc = false.
+Proof.
+  intros Hs Hd. destruct (bs_intersects a dc) eqn:E; [|reflexivity].
+  apply bs_intersects_spec in E as [k [Ha Hk]]. rewrite bs_subset_spec in Hs.
+  rewrite (bs_intersects_false b dc Hd k (Hs k Ha)) in Hk. discriminate.
+Qed.
+
+Section Pus.
+  Variables (P : rparams) (dc : bset).
+  Hypothesis Hby : rp_bynode P = false.
+  Hypothesis Hdc : rp_dcs P = Some dc.
+
+  (* a subtree the recursion does not enter holds no PU of the dropped set *)
+  Lemma pus_unvisited o : tree_ok o -> bs_intersects (oset (o_ccs (odata o))) dc = false ->
+    forall q, In q (nflatten o) -> otype q = HWLOC_OBJ_PU -> mem (o_os (odata q)) dc = false.
+  Proof.
+    induction o as [d n m i x Hn Hm Hi Hx] using obj_ind2. intros Hok Hd q Hq Hpu.
+    rewrite nflatten_eq in Hq. destruct Hq as [<-|Hq].
+    - destruct (tree_ok_self _ Hok) as [Hp _]. destruct (Hp Hpu) as (_ & Hccs & _ & _).
+      cbn [odata] in *. rewrite Hccs in Hd. cbn [oset] in Hd.
+      apply (bs_intersects_false _ _ Hd). apply mem_single_self.
+    - cbn [onch] in Hq. apply in_nflattens in Hq as [c [Hc Hq]].
+      rewrite Forall_forall in Hn. apply (Hn c Hc); try assumption.
+      + eapply tree_ok_child; [exact Hok|exact Hc].
+      + destruct (tree_ok_self _ Hok) as [_ Hsub]. eapply disjoint_sub; [apply (Hsub c Hc)|exact Hd].
+  Qed.
+
+  Lemma mc_eq d : snd (clear_sets P d) = true -> bs_intersects (oset (o_ccs d)) dc = false ->
+                  exists dn, rp_dns P = Some dn /\ bs_intersects (oset (o_cnds d)) dn = true.
+  Proof.
+    unfold clear_sets. cbn [snd]. rewrite Hdc. intros H Hd. rewrite Hd in H. cbn [orb] in H.
+    destruct (rp_dns P) as [dn|]; [eauto|discriminate].
+  Qed.
+
+  (* the cpuset of a PU after the clearing *)
+  Lemma pu_cleared_cs d : o_cs d = Some (bs_single (o_os d)) -> o_ccs d = Some (bs_single (o_os d)) ->
+    oset (o_cs (fst (clear_sets P d))) = if mem (o_os d) dc then bs_empty else bs_single (o_os d).
+  Proof.
+    intros Hcs Hccs. unfold clear_sets. cbn [fst set_sets o_cs]. rewrite Hdc, Hcs, Hccs. cbn [oset].
+    destruct (mem (o_os d) dc) eqn:E.
+    - assert (I : bs_intersects (bs_single (o_os d)) dc = true).
+      { apply bs_intersects_spec. exists (o_os d). split; [apply mem_single_self|exact E]. }
+      rewrite I. cbn [odiff oset]. apply bs_ext. intros k. rewrite mem_diff, mem_single, mem_empty.
+      destruct (k =? o_os d) eqn:Ek; [|reflexivity]. apply N.eqb_eq in Ek. subst k. rewrite E. reflexivity.
+    - destruct (bs_intersects (bs_single (o_os d)) dc) eqn:I; [|reflexivity].
+      cbn [odiff oset]. apply bs_ext. intros k. rewrite mem_diff, mem_single.
+      destruct (k =? o_os d) eqn:Ek; [|reflexivity]. apply N.eqb_eq in Ek. subst k. rewrite E. reflexivity.
+  Qed.
+
+  Lemma type_pu_not_numa : (HWLOC_OBJ_PU =? HWLOC_OBJ_NUMANODE) = false.
+  Proof. vm_compute. reflexivity. Qed.
+
+  (* a PU object: kept iff its os_index is not dropped *)
+  Lemma pu_removed_iff d i x : o_type d = HWLOC_OBJ_PU ->
+    o_cs d = Some (bs_single (o_os d)) -> o_ccs d = Some (bs_single (o_os d)) ->
+    (fst (fst (robj P (Obj d [] [] i x))) = None <-> mem (o_os d) dc = true).
+  Proof.
+    intros Hty Hcs Hccs. rewrite robj_removed_iff. cbn zeta. unfold kept_children.
+    assert (Hk : forall b : bool, (if b then rlist P [] else ([], [], [])) = ([], [], [])) by (intros []; reflexivity).
+    rewrite !Hk. cbn [fst].
+    assert (Hn1 : (if snd (clear_sets P d) && (negb (rp_bynode P) || rp_rm P) then reorder_children [] else []) = [])
+      by (destruct (snd (clear_sets P d) && _); reflexivity).
+    rewrite Hn1. unfold removal_test. rewrite Hby.
+    replace (o_type (fst (clear_sets P d))) with (o_type d) by reflexivity.
+    rewrite Hty, type_pu_not_numa. cbn [negb orb]. rewrite andb_true_r, (pu_cleared_cs d Hcs Hccs).
+    destruct (mem (o_os d) dc) eqn:E.
+    - split; [reflexivity|]. intros _. repeat split; reflexivity.
+    - split; [|discriminate]. intros (_ & _ & H). exfalso.
+      apply bs_is_empty_mem with (i := o_os d) in H. rewrite mem_single_self in H. discriminate.
+  Qed.
+
+  (* soundness: no PU of the dropped set is left *)
+  Lemma pus_sound o : tree_ok o -> forall o', fst (fst (robj P o)) = Some o' ->
+    forall q, In q (nflatten o') -> otype q = HWLOC_OBJ_PU -> mem (o_os (odata q)) dc = false.
+  Proof.
+    induction o as [d n m i x Hn Hm Hi Hx] using obj_ind2. intros Hok o' Ho' q Hq Hpu.
+    destruct (robj P (Obj d n m i x)) as [[r io] mx] eqn:R. cbn [fst] in Ho'. subst r.
+    pose proof R as R0. rewrite robj_eq in R. apply robj_body_kept in R. subst o'.
+    rewrite nflatten_eq in Hq. cbn [onch] in Hq. destruct Hq as [<-|Hq].
+    - (* the object itself is a PU *)
+      unfold otype in Hpu. cbn [odata] in Hpu. change (o_type (fst (clear_sets P d))) with (o_type d) in Hpu.
+      destruct (tree_ok_self _ Hok) as [Hp _]. destruct (Hp Hpu) as (Hcs & Hccs & Hnn & Hmm).
+      cbn [odata onch omch] in *. subst n m.
+      cbn [odata]. change (o_os (fst (clear_sets P d))) with (o_os d).
+      destruct (mem (o_os d) dc) eqn:E; [|reflexivity].
+      apply (pu_removed_iff d i x Hpu Hcs Hccs) in E. rewrite R0 in E. discriminate.
+    - apply in_nflattens in Hq as [c' [Hc' Hq]].
+      assert (Hc'' : In c' (fst (fst (kept_children P d n)))).
+      { destruct (snd (clear_sets P d) && (negb (rp_bynode P) || rp_rm P)); [apply in_reorder|]; exact Hc'. }
+      unfold kept_children in Hc''. destruct (snd (clear_sets P d)) eqn:Emd.
+      + apply rlist_kept_in in Hc'' as [c [Hc Hrc]]. rewrite Forall_forall in Hn.
+        apply (Hn c Hc (tree_ok_child _ c Hok Hc) c' Hrc q Hq Hpu).
+      + cbn [fst] in Hc''.
+        assert (Hd : bs_intersects (oset (o_ccs d)) dc = false).
+        { unfold clear_sets in Emd. cbn [snd] in Emd. rewrite Hdc in Emd. apply orb_false_iff in Emd as [Emd _]. exact Emd. }
+        apply (pus_unvisited c' (tree_ok_child _ c' Hok Hc'')); try assumption.
+        destruct (tree_ok_self _ Hok) as [_ Hsub]. eapply disjoint_sub; [apply (Hsub c' Hc'')|exact Hd].
+  Qed.
+
+  (* completeness: every PU outside the dropped set is still there *)
+  Lemma pus_complete o : tree_ok o -> forall p, In p (nflatten o) -> otype p = HWLOC_OBJ_PU ->
+    mem (o_os (odata p)) dc = false ->
+    exists o', fst (fst (robj P o)) = Some o' /\
+               exists p', In p' (nflatten o') /\ oid p' = oid p /\ otype p' = HWLOC_OBJ_PU /\ o_os (odata p') = o_os (odata p).
+  Proof.
+    induction o as [d n m i x Hn Hm Hi Hx] using obj_ind2. intros Hok p Hp Hpu Hmem.
+    rewrite nflatten_eq in Hp. cbn [onch] in Hp. destruct Hp as [<-|Hp].
+    - destruct (tree_ok_self _ Hok) as [Hq _]. destruct (Hq Hpu) as (Hcs & Hccs & Hnn & Hmm).
+      cbn [odata onch omch] in *. subst n m.
+      destruct (fst (fst (robj P (Obj d [] [] i x)))) as [o'|] eqn:E.
+      + exists o'. split; [reflexivity|]. exists o'. split; [destruct o'; rewrite nflatten_eq; left; reflexivity|].
+        destruct (robj P (Obj d [] [] i x)) as [[r io] mx] eqn:R. cbn [fst] in E. subst r.
+        pose proof (robj_kept_data _ _ _ _ _ R) as Hd. cbn [odata] in Hd.
+        unfold oid, otype. rewrite Hd. repeat split; assumption.
+      + apply (pu_removed_iff d i x Hpu Hcs Hccs) in E. congruence.
+    - apply in_nflattens in Hp as [c [Hc Hp]]. rewrite Forall_forall in Hn.
+      destruct (Hn c Hc (tree_ok_child _ c Hok Hc) p Hp Hpu Hmem) as (c' & Hc' & p' & Hp' & Hid & Hty & Hos).
+      (* the child list of the result is not empty, so the object stays *)
+      assert (Hn1 : exists e, In e (if snd (clear_sets P d) && (negb (rp_bynode P) || rp_rm P)
+                                    then reorder_children (fst (fst (kept_children P d n))) else fst (fst (kept_children P d n))) /\
+                              exists p'', In p'' (nflatten e) /\ oid p'' = oid p /\ otype p'' = HWLOC_OBJ_PU /\ o_os (odata p'') = o_os (odata p)).
+      { unfold kept_children. destruct (snd (clear_sets P d)); cbn [andb fst].
+        - exists c'. split; [|exists p'; auto].
+          assert (In c' (fst (fst (rlist P n)))) by (apply rlist_kept_in; exists c; auto).
+          destruct (negb (rp_bynode P) || rp_rm P); [apply in_reorder|]; assumption.
+        - exists c. split; [assumption|]. exists p. auto. }
+      destruct Hn1 as (e & He & p'' & Hp'' & Hrest).
+      destruct (fst (fst (robj P (Obj d n m i x)))) as [o'|] eqn:E.
+      + exists o'. split; [reflexivity|]. exists p''. split; [|exact Hrest].
+        destruct (robj P (Obj d n m i x)) as [[r io] mx] eqn:R. cbn [fst] in E. subst r.
+        rewrite robj_eq in R. apply robj_body_kept in R. subst o'.
+        rewrite nflatten_eq. right. cbn [onch]. apply in_nflattens. exists e. auto.
+      + apply robj_removed_iff in E. cbn zeta in E. destruct E as [E _]. rewrite E in He. contradiction.
+  Qed.
+End Pus.
+
+(* restrict by cpuset: the PUs afterwards are exactly the old PUs whose os_index is in S *)
+Theorem prune_pus_bycpu t S flags t' :
+  restrict_prune t S flags = Done t' -> hasf flags HWLOC_RESTRICT_FLAG_BYNODESET = false ->
+  tree_ok (tp_root t) ->
+  (forall q, In q (nflatten (tp_root t')) -> otype q = HWLOC_OBJ_PU -> mem (o_os (odata q)) S = true) /\
+  (forall p, In p (nflatten (tp_root t)) -> otype p = HWLOC_OBJ_PU -> mem (o_os (odata p)) S = true ->
+             exists p', In p' (nflatten (tp_root t')) /\ oid p' = oid p /\ otype p' = HWLOC_OBJ_PU /\
+                        o_os (odata p') = o_os (odata p)).
+Proof.
+  intros H Hb Hok. apply restrict_prune_done in H as (P & io & mx & HP & Hr & _ & _).
+  destruct (restrict_params_bycpu _ _ _ _ HP Hb) as (Hby & Hdc & _).
+  assert (Hfst : fst (fst (robj P (tp_root t))) = Some (tp_root t')) by (rewrite Hr; reflexivity).
+  split.
+  - intros q Hq Hpu. pose proof (pus_sound P (bs_compl S) Hby Hdc _ Hok _ Hfst q Hq Hpu) as G.
+    rewrite mem_compl in G. apply negb_false_iff in G. exact G.
+  - intros p Hp Hpu Hm.
+    destruct (pus_complete P (bs_compl S) Hby Hdc _ Hok p Hp Hpu) as (o' & Ho' & G).
+    + rewrite mem_compl, Hm. reflexivity.
+    + rewrite Hfst in Ho'. inversion Ho'; subst. exact G.
+Qed.
